@@ -88,6 +88,8 @@ def gen_cases(ctx, max_o, max_s, n_rand, rand_o, rand_s):
         S = R.rand_shape(rng, rng.randint(1, rand_s))
         O = R.rand_otree(rng, rng.randint(1, rand_o), R.shape_leaves(S))
         cases.append({"S": S, "O": O, "costs": R.rand_costs(rng, plain=True)})
+        if rng.random() < 0.3:   # same input object solved before under other costs (see recon.primed)
+            cases[-1]["prime"] = R.rand_costs(rng, plain=True, coherent_only=False)
     return cases
 
 
@@ -95,7 +97,7 @@ def impl_thl(c):
     from superrec2.compute.reconciliation import reconcile_thl, _compute_thl_table
     from superrec2.compute.exhaustive import reconcile_exhaustive, generate_all
     from superrec2.utils.dynamic_programming import RetentionPolicy
-    B = R.Built(c["S"], c["O"], c["costs"])
+    B = R.primed(c, lambda i: (reconcile_thl(i, RetentionPolicy.ALL), reconcile_exhaustive(i, RetentionPolicy.ANY)))
     try:
         allr = sorted((B.canon(o) for o in reconcile_thl(B.input, RetentionPolicy.ALL)), key=json.dumps)
         anyr = [B.canon(o) for o in reconcile_thl(B.input, RetentionPolicy.ANY)]
